@@ -294,6 +294,7 @@ def gen_history(rnd, nops, prune=None, batch_p=0.25, kind=None, abort_p=0.35, un
         "in_handler": rnd.random() < 0.25,
         "late_enter": rnd.random() < 0.2,
         "under_snapshot": rnd.random() < 0.25,
+        "foreign_batch": rnd.random() < 0.2,
         "rc": "counter" if rnd.random() < 0.2 else "default",
         "db": rnd.choice(["dict", "dict", "dictsub", "dictsub"]) if rnd.random() < 0.25 else "recording",
     }
@@ -583,6 +584,15 @@ class Runner:
                         raise exc()
                     apply_plain(b, bmodel, o)
                     self.after_batch_op(b, bmodel, o)
+                    if i == 0 and self.case.get("foreign_batch"):
+                        # while this block is open, an unrelated trie on ANOTHER database runs
+                        # a batch of its own from start to finish
+                        ft = HexaryTrie({}, prune=bool(self.step % 2))
+                        with ft.squash_changes() as fb:
+                            fb.set(b"foreign", b"f" * 40)
+                        if cut(ft.get, b"foreign") != b"f" * 40:
+                            raise Violation("lookup-get", "an unrelated trie lost the write of its own batch (run while another trie's batch was open)")
+                        self.ctx.count("foreign_batches_inside_a_block")
                 if abort == len(sub):
                     raise exc()
                 state["final_root"] = b.root_hash
@@ -629,6 +639,8 @@ def lookup_sweep(trie, model, probes, ctx, where=""):
         got = cut(trie.get, k)
         if got != exp:
             raise Violation("lookup-get", "%sget(%s)=%s, model says %s" % (where, hx(k), hx(got), hx(exp)))
+        if not isinstance(got, bytes):
+            raise Violation("lookup-get", "%sget(%s) returned a %s, not a byte string" % (where, hx(k), type(got).__name__))
         got = cut(trie.__getitem__, k)
         if got != exp:
             raise Violation("lookup-getitem", "%strie[%s]=%s, model says %s" % (where, hx(k), hx(got), hx(exp)))
